@@ -35,11 +35,12 @@ def import_dds() -> Any:
 
 def tlc_design(shapes: List[Shape], plans: List[List[str]], max_ver: int, store_kind: str,
                placement: str, layouts: List[str], cfg: str = "DdsEval_design.cfg",
-               timeout: int = 900, name: str = "design") -> common.TLCResult:
+               timeout: int = 900, name: str = "design", stages: List[int] = [5],
+               fail_classes: List[str] = []) -> common.TLCResult:
     d = common.stage_spec({
         "ShapeData.tla": shp.shape_data_module(shapes),
         "RunConf.tla": runconf.runconf(max_ver, store_kind, placement, plans, False,
-                                       list(range(1, len(shapes) + 1)), layouts)}, name)
+                                       list(range(1, len(shapes) + 1)), layouts, stages, fail_classes)}, name)
     r = common.run_tlc(d, "DdsEval.tla", cfg, timeout=timeout)
     common.tlc_must_pass(r, "DdsEval (%s, %d shapes)" % (cfg, len(shapes)))
     return r
@@ -47,7 +48,8 @@ def tlc_design(shapes: List[Shape], plans: List[List[str]], max_ver: int, store_
 
 def tlc_generate(shapes: List[Shape], plans: List[List[str]], max_ver: int, store_kind: str,
                  placement: str, layouts: List[str], cfg: str = "DdsEval_gen.cfg",
-                 timeout: int = 900, name: str = "gen") -> Tuple[common.TLCResult, List[Dict[str, Any]]]:
+                 timeout: int = 900, name: str = "gen", stages: List[int] = [5],
+                 fail_classes: List[str] = []) -> Tuple[common.TLCResult, List[Dict[str, Any]]]:
     """Histories of the bounded model, one per complete plan, with expected observables.
     Shapes are distributed over several single-worker TLC processes."""
     n = max(1, min(common.NCPU // 2, len(shapes)))
@@ -56,7 +58,7 @@ def tlc_generate(shapes: List[Shape], plans: List[List[str]], max_ver: int, stor
         groups[i % n].append(i + 1)
     with multiprocessing.get_context("fork").Pool(n) as pool:
         parts = pool.map(_gen_one, [(shapes, plans, max_ver, store_kind, placement, layouts, cfg,
-                                     timeout, "%s%d" % (name, k), ids)
+                                     timeout, "%s%d" % (name, k), ids, stages, fail_classes)
                                     for (k, ids) in enumerate(groups)])
     hists: List[Dict[str, Any]] = []
     first = None
@@ -68,10 +70,11 @@ def tlc_generate(shapes: List[Shape], plans: List[List[str]], max_ver: int, stor
 
 
 def _gen_one(a) -> Tuple[common.TLCResult, List[Dict[str, Any]]]:
-    (shapes, plans, max_ver, store_kind, placement, layouts, cfg, timeout, name, ids) = a
+    (shapes, plans, max_ver, store_kind, placement, layouts, cfg, timeout, name, ids, stages, fail_classes) = a
     d = common.stage_spec({
         "ShapeData.tla": shp.shape_data_module(shapes),
-        "RunConf.tla": runconf.runconf(max_ver, store_kind, placement, plans, True, ids, layouts)}, name)
+        "RunConf.tla": runconf.runconf(max_ver, store_kind, placement, plans, True, ids, layouts,
+                                       stages, fail_classes)}, name)
     r = common.run_tlc(d, "DdsEval.tla", cfg, workers=1, timeout=timeout, heap="2g")
     common.tlc_must_pass(r, "DdsEval generation (%s)" % cfg)
     hs = r.printed("HIST")
@@ -129,8 +132,10 @@ def reference_check(items: List[Tuple[Shape, List[Dict[str, Any]]]], limit: int 
         if obs is None:
             continue
         for (i, rec) in enumerate(hist):
-            if rec["op"] != "eval" or rec["err"] != "":
+            if rec["op"] != "eval" or rec["err"] not in ("", []) or rec.get("stages", 5) < 5:
                 continue
+            if any(c != "no" for c in rec["prog"].get("fail", {}).values()):
+                continue   # the failure switch is not referentially transparent: a served node would raise in the reference
             o = obs.get(i, {})
             if o.get("fatal") or o.get("err") or o.get("result") != rec["result"]:
                 raise MachineryError(
